@@ -147,6 +147,11 @@ func (r *Router) WithOptions(options ...func(*Router)) {
 	for _, opt := range options {
 		opt(r)
 	}
+
+	// init route cache container. it must exist before the first lookup, also when no route is added.
+	if r.enableCaching {
+		r.cachedRoutes = NewCachedRoutes(int(r.maxNumCaches))
+	}
 }
 
 /*************************************************************
